@@ -76,6 +76,11 @@ CHECKS = {
         "count() on every partial tree decodable from <= 4/6 choices, targets -1..4, 3 needles: verdicts agree with the needle count and reachability; completions have exactly the target count and no open leaf that can still produce a needle.",
    note="Trusted: validator, needle counting, GrammarGraph.reachable. [decoder]. Only soundness of returned trees is claimed (None always allowed). Outside: numeric model-value parsing, larger targets.",
    design="§3 C14"),
+ "C20": dict(level="other", technique="CrossHair (z3): solver-driven exhaustive enumeration of bounded argument strings/trees, real semantic predicates vs. the documented relation",
+   text=BOUNDED + "octal_to_decimal (as shipped for TAR) on all octal x decimal numerals of <= 2/3 digits in all three argument modes; crop/ljust/rjust/ljust_crop/rjust_crop/extend_crop on all strings "
+        "of <= 3/4 characters x widths x fill characters; count on all bounded closed trees with recursive needles: verdict = documented relation, replacements satisfy it and are valid trees.",
+   note="Trusted: Python int(s,8)/ljust/rjust/slicing as reference. [decoder]. Outside: longer arguments, just without crop on too-long arguments (asserted), tar checksum.",
+   design="§3 C20"),
 }
 NOT_APPLICABLE = {
  "C21": "needs end-to-end solve() on the shipped formalizations plus external validators (docutils, XML parser): the solver loop is a heap algorithm around Z3 calls that no engine here can encode, and the validators are not solver objects",
